@@ -1,10 +1,10 @@
 import Prism.Proofs.C08
-open Prism
-#print axioms C08_schedule_independent
-#print axioms C08_sources
-#print axioms C08_functional
-#print axioms C08_png
-#print axioms C08_jpeg
-#print axioms C08_webp
-#print axioms C08_icc
-#print axioms C08_auto
+
+#print axioms Prism.C08_schedule_independent
+#print axioms Prism.C08_sources
+#print axioms Prism.C08_functional
+#print axioms Prism.C08_png
+#print axioms Prism.C08_jpeg
+#print axioms Prism.C08_webp
+#print axioms Prism.C08_icc
+#print axioms Prism.C08_auto
